@@ -189,6 +189,21 @@ fn check_stream(msgs: &[RMsg], junks: &[Vec<u8>], filter: u8) -> CheckResult {
     Ok(Pass::new(some_junk && msgs.len() >= 2).class_if(f.is_some(), "with-filter").class_if(dropped > 0, "filtered-out-behind-junk").class("stream").class_if(msgs.len() >= 3, "stream>=3-messages"))
 }
 
+/// a small fixed stored message for the boundary enumeration
+fn boundary_message() -> RMsg {
+    RMsg {
+        storage: Some(RStorage { secs: 1, micros: 2, ecu: "ECU".to_string() }),
+        htyp: UEH | WEID,
+        mcnt: 9,
+        len: 4 + 4 + 10 + 6,
+        ecu: Some("E1".to_string()),
+        seid: None,
+        tmsp: None,
+        ext: Some(RExt { msin: 0x40, noar: 0, apid: "APP".to_string(), ctid: "CTX".to_string() }),
+        payload: RPayload::NonVerbose(0x01020304, vec![5, 6]),
+    }
+}
+
 pub fn check(c: &Case) -> CheckResult {
     match c {
         Case::Search(b) => check_search(b),
@@ -239,11 +254,51 @@ pub fn run(run: &Run) {
          parse: junk (pattern scrubbed out by construction; tails that are partial patterns encouraged) ++ message ++ suffix must parse to the same \
          message and remainder as message ++ suffix, without a filter and with one of 7 filter configurations (kept or FilteredOut alike); stream: \
          junk0 m1 junk1 ... mk junk_k parsed repeatedly must yield exactly m1..mk (with a filter: one result per message in order, kept = original, \
-         dropped = its payload length); non-trivial = \
+         dropped = its payload length); block-boundary straddles: pattern (and a junk-prefixed message) placed from 4 bytes before to 4 bytes behind every \
+         multiple (x1..x3) of every power-of-two block size 16 B .. 2 MiB; non-trivial = \
          pattern found / junk non-empty / stream of >= 2 messages with junk; distinct by the whole case",
     );
     run.assume("'DLT\\x01' has no border, so junk without a full pattern cannot create an earlier occurrence together with the message start");
     run.regressions(&replay);
+    // the pattern (and a message behind junk) straddling every power-of-two block boundary from 16 bytes to 2 MiB
+    run.enumerate("block-boundary-straddles", 18, true, |b| {
+        let mut rep = BlockReport::default();
+        let block = 16usize << b; // 16 .. 2 MiB
+        for mult in [1usize, 2, 3] {
+            if block * mult > (2 << 20) + 8 {
+                continue;
+            }
+            for d in 0..=8usize {
+                let at = block * mult + 4 - d; // pattern starts 4 bytes behind .. 4 bytes before the boundary
+                let at = at.saturating_sub(4);
+                for fill in [0u8, 3] {
+                    let junk = scrub(expand_bytes(0xC06 ^ (at as u64) ^ ((fill as u64) << 40), at, fill + 1));
+                    let mut buf = junk.clone();
+                    buf.extend_from_slice(b"DLT\x01");
+                    buf.extend_from_slice(&[7u8; 9]);
+                    let cases = [
+                        Case::Search(buf),
+                        Case::Parse { junk, msg: boundary_message(), suffix: vec![1, 2, 3], filter: if d % 2 == 0 { 0 } else { 1 } },
+                    ];
+                    for case in cases {
+                        rep.evaluations += 1;
+                        match check(&case) {
+                            Ok(p) => rep.nontrivial += p.nontrivial as u64,
+                            Err(v) => {
+                                if rep.violation.is_none() {
+                                    rep.violation = Some((serde_json::json!(case), v));
+                                }
+                            }
+                        }
+                    }
+                }
+            }
+        }
+        if b == 3 {
+            rep.sample = Some(serde_json::json!({"block": block, "pattern offsets": "block*{1,2,3} - 4 ..= + 4", "cases": "search + junk-prefixed parse"}));
+        }
+        rep
+    });
     run.random("resync", run.cases(300_000, 5_000_000), 0.4, strategy, check);
 }
 
